@@ -165,6 +165,10 @@ class Disc1D:
                 raise AnalysisError("xnum.%s: kappa is not a literal constant" % clsname)
         if "limiter" in summ:
             attrs["limiter"] = limiter
+        # other attributes the constructor sets to constants (None placeholders of lazily filled fields ...)
+        for nm, (k2, v2) in summ.items():
+            if k2 == "const" and nm not in attrs and nm != "kprec":
+                attrs[nm] = v2
         return ci, SelfObj(ci, attrs)
 
     def stage_plan(self, num_ci):
